@@ -19,7 +19,11 @@ type InboundRequestSingleFlight struct {
 }
 
 type requestShard struct {
-	m sync.Map
+	// mu makes a follower's registration (LoadOrStore + AddFollower) atomic with respect to
+	// the leader's decision in FinishOk (Delete + HasFollowers): a follower that found the
+	// entry is always counted before the leader decides whether to publish Data.
+	mu sync.Mutex
+	m  sync.Map
 }
 
 const defaultRequestSingleFlightShardCount = 8
@@ -95,10 +99,14 @@ func (r *InboundRequestSingleFlight) GetOrCreate(ctx *Context, response *GraphQL
 		ID:   key,
 	}
 
+	shard.mu.Lock()
 	inflight, shared := shard.m.LoadOrStore(key, request)
 	if shared {
 		request = inflight.(*InflightRequest)
 		request.AddFollower()
+	}
+	shard.mu.Unlock()
+	if shared {
 		select {
 		case <-request.Done:
 			if request.Err != nil {
@@ -118,8 +126,11 @@ func (r *InboundRequestSingleFlight) FinishOk(req *InflightRequest, data []byte)
 		return
 	}
 	shard := r.shardFor(req.ID)
+	shard.mu.Lock()
 	shard.m.Delete(req.ID)
-	if req.HasFollowers() {
+	hasFollowers := req.HasFollowers()
+	shard.mu.Unlock()
+	if hasFollowers {
 		// optimization to only copy when we actually have to
 		req.Data = make([]byte, len(data))
 		copy(req.Data, data)
